@@ -16,6 +16,15 @@ hand-written model Codec/WalkerSafe.v relies on and emits them as booleans the t
     c_des_tag_chain_closed      _deserialize_impl / _serialize_impl: the union if/else-if chain ends in `else return BAD_UNION_TAG`
     c_len_check_is_dsdl_capacity  both length checks compare against `{{ t.capacity }}` (the DSDL capacity literal) while the
                                 storage is `elements[<T>_<f>_ARRAY_CAPACITY_]` (definitions.j2) -- the two differ under the override
+    c_len_check_storage         (the other recognised shape) under `options.enable_override_variable_array_capacity` both checks
+                                compare against `sizeof(x.elements) / sizeof(x.elements[0])` (non-boolean elements), else the literal
+    c_ser_guarded               a `_guard` macro (emits `if ((offset_bits + n) > (capacity_bytes * 8U)) return TOO_SMALL` iff the
+                                override option is set) is called before every raw store / memmove / memset / nunavutCopyBits /
+                                header reservation, and the nested size is clamped to the remaining capacity; false = no such macro
+    c_des_ptr_clamped           _deserialize_composite passes `&buffer[nunavutChooseMin(offset_bits / 8U, capacity_bytes)]`
+                                (false = the older `&buffer[offset_bits / 8U]`)
+    c_des_remaining_live        the `remaining` the delimiter header is compared with is the template-level expression that reads
+                                `offset_bits` where it is used (after the header has been read), not a C variable computed earlier
     c_getbits_zero_from_floor   nunavutGetBits zero-fills from `sat_bits / 8U` (so no stale destination bit survives)
     cpp_vla_clear_first         C++ _deserialize_variable_length_array: size check, `.clear()`, `.reserve(`, loop with push_back
     union_destroy_unfiltered    _fields_as_union.j2 destroy_current(): loop over `composite_type.fields_except_padding` WITHOUT a
@@ -113,11 +122,42 @@ def facts() -> typing.Dict[str, bool]:
 
     # --- C serialization: variable-length array
     vla = macro(ser, '_serialize_variable_length_array')
-    lchk = r'\.count\s*>\s*\{\{\s*t\.capacity\s*\}\}'
+    lchk = r'\.count\s*>\s*(?:\{\{\s*t\.capacity\s*\}\}|\{\{\s*_storage_capacity\(t,\s*reference\)\s*\}\}|\(sizeof\()'
+    lchk_lit = r'\.count\s*>\s*\{\{\s*t\.capacity\s*\}\}'
     f['c_ser_len_check_first'] = (pos(vla, lchk, 'ser length test') < pos(vla, r'return\s+-NUNAVUT_ERROR_REPRESENTATION_BAD_ARRAY_LENGTH', 'BAD_ARRAY_LENGTH')
                                   and before(vla, r'return\s+-NUNAVUT_ERROR_REPRESENTATION_BAD_ARRAY_LENGTH',
                                              [r'_serialize_integer\s*\(', r'nunavutCopyBits\s*\(', r'for\s*\(size_t', r'_serialize_any\s*\('],
                                              '_serialize_variable_length_array'))
+
+    # --- C serialization: run-time guards of the unchecked stores (second recognised shape)
+    raw_store = r'buffer\[[^\]]*\]\s*=|memmove\s*\(|memset\s*\(|nunavutCopyBits\s*\('
+    gcall = r'\{\{\s*_guard\('
+    if re.search(r'macro\s+_guard\s*\(', ser):
+        g = macro(ser, '_guard')
+        ok_g = (len(all_pos(g, r'\{%-?\s*if\s+options\.enable_override_variable_array_capacity\s*-?%\}')) == 1
+                and len(all_pos(g, r'if\s*\(\(offset_bits\s*\+\s*\{\{\s*n_bits\s*\}\}\)\s*>\s*\(capacity_bytes\s*\*\s*8U\)\)')) == 1
+                and pos(g, r'if\s*\(\(offset_bits', 'guard test') < pos(g, r'return\s+-NUNAVUT_ERROR_SERIALIZATION_BUFFER_TOO_SMALL', 'guard return'))
+        for name in ('_serialize_void', '_serialize_boolean', '_serialize_integer', '_serialize_float'):
+            b = macro(ser, name)
+            ok_g = ok_g and len(all_pos(b, gcall)) == 1 and all(pos(b, gcall, name) < x for x in all_pos(b, raw_store))
+        for name in ('_serialize_fixed_length_array', '_serialize_variable_length_array'):
+            b = macro(ser, name)
+            for x in all_pos(b, r'nunavutCopyBits\s*\('):
+                prev = [y for y in all_pos(b, gcall) if y < x]
+                between = b[prev[-1]:x] if prev else 'nunavutCopyBits('
+                ok_g = ok_g and bool(prev) and not re.search(raw_store, between) and 'offset_bits +=' not in between
+        b = macro(ser, '_serialize_composite')
+        clamp = r'if\s*\(\{\{\s*ref_size_bytes\s*\}\}\s*>\s*\(capacity_bytes\s*-\s*\(offset_bits\s*/\s*8U\)\)\)'
+        ok_g = (ok_g and len(all_pos(b, clamp)) == 1 and pos(b, clamp, 'nested clamp') < pos(b, r'_serialize_\(', 'nested call')
+                and pos(b, gcall, 'reserve guard') < pos(b, r'offset_bits\s*\+=\s*\{\{\s*t\.delimiter_header_type\.bit_length\s*\}\}U', 'reserve')
+                and len([y for y in all_pos(b, gcall) if y < pos(b, clamp, 'nested clamp')]) >= 2)
+        if not ok_g:
+            raise Closed('_guard macro present but not in front of every unchecked store')
+        f['c_ser_guarded'] = True
+    else:
+        if re.search(gcall, ser):
+            raise Closed('_guard called but not defined')
+        f['c_ser_guarded'] = False
 
     # --- C deserialization
     dvla = macro(des, '_deserialize_variable_length_array')
@@ -125,12 +165,41 @@ def facts() -> typing.Dict[str, bool]:
                                   and before(dvla, r'return\s+-NUNAVUT_ERROR_REPRESENTATION_BAD_ARRAY_LENGTH',
                                              [r'nunavutGetBits\s*\(', r'for\s*\(size_t', r'_deserialize_any\s*\('],
                                              '_deserialize_variable_length_array'))
-    f['c_len_check_is_dsdl_capacity'] = (len(all_pos(vla, lchk)) == 1 and len(all_pos(dvla, lchk)) == 1
-                                         and '_ARRAY_CAPACITY_' not in vla and '_ARRAY_CAPACITY_' not in dvla
-                                         and len(all_pos(dfn, r"'elements',\s*'\[%s_%s_ARRAY_CAPACITY_\]'")) == 1)
+    storage_decl = len(all_pos(dfn, r"'elements',\s*'\[%s_%s_ARRAY_CAPACITY_\]'")) == 1
+    old_shape = (len(all_pos(vla, lchk_lit)) == 1 and len(all_pos(dvla, lchk_lit)) == 1 and len(all_pos(vla, lchk)) == 1
+                 and len(all_pos(dvla, lchk)) == 1 and 'sizeof' not in vla and 'sizeof' not in dvla)
+    sz = r'\(sizeof\(\{\{\s*reference\s*\}\}\.elements\)\s*/\s*sizeof\(\{\{\s*reference\s*\}\}\.elements\[0\]\)\)'
+    opt_nb = r'\{%-?\s*if\s+options\.enable_override_variable_array_capacity\s+and\s+t\.element_type\s+is\s+not\s+BooleanType\s*-?%\}'
+    new_ser = False
+    if '_storage_capacity' in ser:
+        sc = macro(ser, '_storage_capacity')
+        new_ser = (len(all_pos(sc, opt_nb)) == 1 and len(all_pos(sc, sz)) == 1 and pos(sc, opt_nb, 'opt') < pos(sc, sz, 'sizeof')
+                   < pos(sc, r'\{%-?\s*else\s*-?%\}', 'else') < pos(sc, r'\{\{\s*t\.capacity\s*\}\}', 'literal')
+                   and len(all_pos(vla, r'\.count\s*>\s*\{\{\s*_storage_capacity\(t,\s*reference\)\s*\}\}')) == 1 and len(all_pos(vla, lchk)) == 1)
+    new_des = (len(all_pos(dvla, opt_nb)) == 1 and len(all_pos(dvla, r'\.count\s*>\s*' + sz)) == 1 and len(all_pos(dvla, lchk_lit)) == 1
+               and pos(dvla, opt_nb, 'opt') < pos(dvla, r'\.count\s*>\s*' + sz, 'sizeof test') < pos(dvla, lchk_lit, 'literal test'))
+    if not storage_decl or not (old_shape or (new_ser and new_des)):
+        raise Closed('array length checks: neither the DSDL-capacity shape nor the storage-capacity shape (ser new=%s des new=%s)' % (new_ser, new_des))
+    f['c_len_check_is_dsdl_capacity'] = old_shape
+    f['c_len_check_storage'] = (not old_shape) and new_ser and new_des
     dcomp = macro(des, '_deserialize_composite')
     f['c_des_header_check_first'] = before(dcomp, r'return\s+-NUNAVUT_ERROR_REPRESENTATION_BAD_DELIMITER_HEADER',
                                            [r'_deserialize_\s*\('], '_deserialize_composite')
+    nested_ptr = re.findall(r'_deserialize_\(\s*&\{\{\s*reference\s*\}\},\s*&buffer\[([^\]]*)\]', dcomp)
+    if len(nested_ptr) != 1:
+        raise Closed('_deserialize_composite: nested call shape not recognised')
+    np_ = nested_ptr[0].replace(' ', '')
+    if np_ == 'nunavutChooseMin(offset_bits/8U,capacity_bytes)':
+        f['c_des_ptr_clamped'] = True
+    elif np_ == 'offset_bits/8U':
+        f['c_des_ptr_clamped'] = False
+    else:
+        raise Closed('_deserialize_composite: nested pointer expression not recognised: ' + np_)
+    rem = re.findall(r'\{%-?\s*set\s+remaining_bytes\s*-?%\}(.*?)\{%-?\s*endset\s*-?%\}', dcomp, flags=re.S)
+    f['c_des_remaining_live'] = (len(rem) == 1 and rem[0].strip().replace(' ', '') == '(capacity_bytes-nunavutChooseMin((offset_bits/8U),capacity_bytes))'
+                                 and len(all_pos(dcomp, r'if\s*\(\{\{\s*ref_size_bytes\s*\}\}\s*>\s*\{\{\s*remaining_bytes\s*\}\}\)')) == 1
+                                 and pos(dcomp, r'_deserialize_integer\(t\.delimiter_header_type', 'header read')
+                                 < pos(dcomp, r'if\s*\(\{\{\s*ref_size_bytes\s*\}\}\s*>\s*\{\{\s*remaining_bytes\s*\}\}\)', 'header test'))
     dimpl = macro(des, '_deserialize_impl')
     f['c_des_tag_chain_closed'] = before(dimpl, r'\{%-?\s*endfor\s*-?%\}\s*else\s*\{\s*return\s+-NUNAVUT_ERROR_REPRESENTATION_BAD_UNION_TAG',
                                          [r'\{%-?\s*else\s*-?%\}\s*\{%-?\s*assert\s+False'], '_deserialize_impl union chain')
@@ -182,8 +251,9 @@ def facts() -> typing.Dict[str, bool]:
     return f
 
 
+STATE = ['c_len_check_is_dsdl_capacity', 'c_len_check_storage', 'c_ser_guarded', 'c_des_ptr_clamped']   # either value is a recognised shape
 ORDER = ['c_ser_up_front_first', 'c_ser_check_guard_is_override', 'c_ser_tag_chain_closed', 'c_ser_len_check_first', 'c_des_len_check_first',
-         'c_len_check_is_dsdl_capacity', 'c_des_header_check_first', 'c_des_tag_chain_closed', 'c_des_bool_guarded', 'c_des_byte_guarded',
+         'c_len_check_is_dsdl_capacity', 'c_len_check_storage', 'c_ser_guarded', 'c_des_ptr_clamped', 'c_des_remaining_live', 'c_des_header_check_first', 'c_des_tag_chain_closed', 'c_des_bool_guarded', 'c_des_byte_guarded',
          'c_getbits_zero_from_floor', 'cpp_vla_clear_first', 'union_destroy_unfiltered', 'union_emplace_destroy_first']
 
 
@@ -199,10 +269,10 @@ def gen_c04() -> typing.Tuple[bool, str]:
     lines = [gen.HEADER % SOURCES, '(* structural facts of the (de)serialization templates read by tools/translators/gen_c04.py *)\n']
     for k in ORDER:
         lines.append('Definition tpl_%s : bool := %s.\n' % (k, 'true' if f[k] else 'false'))
-    lines.append('\nDefinition tpl_order_facts : bool :=\n  %s.\n' % ' && '.join('tpl_' + k for k in ORDER if not k.startswith(('cpp_', 'union_'))))
+    lines.append('\nDefinition tpl_order_facts : bool :=\n  %s.\n' % ' && '.join('tpl_' + k for k in ORDER if not k.startswith(('cpp_', 'union_')) and k not in STATE))
     gen.write_if_changed(OUT, ''.join(lines))
-    bad = [k for k in ORDER if not f[k]]
-    return True, 'Gen_C04.v: %d facts, false: %s' % (len(ORDER), bad or 'none')
+    bad = [k for k in ORDER if not f[k] and k not in STATE]
+    return True, 'Gen_C04.v: %d facts, false: %s; state: %s' % (len(ORDER), bad or 'none', {k: f[k] for k in STATE})
 
 
 GENERATORS = {'c04': gen_c04}
